@@ -5,7 +5,7 @@
 //! the same list without shipping it (a hash of the list is echoed back and compared).
 //! A script is a sequence of setter calls on a fresh `CircuitRunner` followed by `run()`.
 
-use p3_baby_bear::{BabyBear, default_babybear_poseidon2_16};
+use p3_baby_bear::{BabyBear, default_babybear_poseidon2_16, default_babybear_poseidon2_32};
 use p3_circuit::ops::{
     BabyBearD1Width16, NpoPrivateData, Poseidon2Config, Poseidon2PermCall,
     Poseidon2PermPrivateData, generate_poseidon2_trace, generate_recompose_trace,
@@ -14,7 +14,7 @@ use p3_circuit::ops::poseidon2_perm::Poseidon2PermCallBase;
 use p3_circuit::{Circuit, CircuitBuilder, ExprId, NonPrimitiveOpId, Op, WitnessId};
 use p3_field::extension::BinomialExtensionField;
 use p3_field::{BasedVectorSpace, ExtensionField, Field, PrimeCharacteristicRing, PrimeField64};
-use p3_poseidon2_circuit_air::BabyBearD4Width16;
+use p3_poseidon2_circuit_air::{BabyBearD4Width16, BabyBearD4Width32};
 use p3_symmetric::Permutation;
 use serde::{Deserialize, Serialize};
 use p3_circuit::expr::Expr;
@@ -523,6 +523,9 @@ pub fn catalogue(thorough: bool) -> Vec<&'static str> {
         "p2d4_min",
         "p2d4_priv",
         "p2d4_pub",
+        // the same sponge rows on the arity-4 permutation shape
+        "p2d4_min@w32",
+        "p2d4_priv@w32",
         // Merkle mode with private data
         "merkle_checked",
         "merkle_row_unchecked",
@@ -541,6 +544,9 @@ pub fn catalogue(thorough: bool) -> Vec<&'static str> {
             "p2base_mixed",
             "p2d4_chain3",
             "p2d4_priv_expected",
+            "p2d4_pub@w32",
+            "p2d4_chain3@w32",
+            "p2d4_priv_expected@w32",
             "mmcs_verify_tail",
             "recompose_coeff_priv",
             "recompose_then_perm",
@@ -891,6 +897,15 @@ fn perm_e4(state: [E4; 4]) -> [E4; 4] {
     let out = perm.permute(flat);
     core::array::from_fn(|i| <E4 as BasedVectorSpace<BF>>::from_basis_coefficients_slice(&out[4 * i..4 * i + 4]).unwrap())
 }
+fn perm_e4_w32(state: &[E4]) -> Vec<E4> {
+    let perm = default_babybear_poseidon2_32();
+    let mut flat = [BF::ZERO; 32];
+    for (i, l) in state.iter().enumerate() {
+        flat[4 * i..4 * i + 4].copy_from_slice(<E4 as BasedVectorSpace<BF>>::as_basis_coefficients_slice(l));
+    }
+    let out = perm.permute(flat);
+    (0..8).map(|i| <E4 as BasedVectorSpace<BF>>::from_basis_coefficients_slice(&out[4 * i..4 * i + 4]).unwrap()).collect()
+}
 /// one arity-2 Merkle compression step: the running digest goes left (bit 0) or right (bit 1)
 fn merkle_step(cur: [E4; 2], sib: [E4; 2], bit: bool) -> [E4; 2] {
     let st = if bit { [sib[0], sib[1], cur[0], cur[1]] } else { [cur[0], cur[1], sib[0], sib[1]] };
@@ -899,13 +914,36 @@ fn merkle_step(cur: [E4; 2], sib: [E4; 2], bit: bool) -> [E4; 2] {
 }
 
 /// circuits over the quartic extension (D = 4)
+///
+/// A name with the suffix `@w32` builds the same sponge circuit on the arity-4 permutation shape
+/// (`BABY_BEAR_D4_W32`: eight limbs, six of them rate); the Merkle circuits exist for the
+/// arity-2 shape only.
 fn cat_e4(name: &str) -> Option<Result<Built<E4>, String>> {
+    let (name, w32) = match name.strip_suffix("@w32") {
+        Some(b) => (b, true),
+        None => (name, false),
+    };
+    if w32 && !matches!(name, "p2d4_min" | "p2d4_priv" | "p2d4_pub" | "p2d4_priv_expected" | "p2d4_chain3") {
+        return None;
+    }
     let mut a = CatAcc::<E4>::new();
-    a.b.enable_poseidon2_perm::<BabyBearD4Width16, _>(
-        generate_poseidon2_trace::<E4, BabyBearD4Width16>,
-        default_babybear_poseidon2_16(),
-    );
-    let cfg = Poseidon2Config::BABY_BEAR_D4_W16;
+    let cfg = if w32 {
+        a.b.enable_poseidon2_perm_width_32::<BabyBearD4Width32, _>(
+            generate_poseidon2_trace::<E4, BabyBearD4Width32>,
+            default_babybear_poseidon2_32(),
+        );
+        Poseidon2Config::BABY_BEAR_D4_W32
+    } else {
+        a.b.enable_poseidon2_perm::<BabyBearD4Width16, _>(
+            generate_poseidon2_trace::<E4, BabyBearD4Width16>,
+            default_babybear_poseidon2_16(),
+        );
+        Poseidon2Config::BABY_BEAR_D4_W16
+    };
+    let we = cfg.width_ext();
+    // non-Merkle rows of an extension-field permutation: private data handed to one of them
+    // can never reach the trace and is refused by the executor
+    let mut non_merkle: Vec<u32> = vec![];
     macro_rules! tr {
         ($e:expr) => {
             match $e {
@@ -914,7 +952,20 @@ fn cat_e4(name: &str) -> Option<Result<Built<E4>, String>> {
             }
         };
     }
+    macro_rules! padd {
+        ($c:expr) => {{
+            let c = $c;
+            let r = tr!(a.b.add_poseidon2_perm(&c));
+            if !c.merkle_path {
+                non_merkle.push(r.0.0);
+            }
+            r
+        }};
+    }
     let call = |new_start: bool, merkle: bool, bit: Option<ExprId>, inputs: Vec<Option<ExprId>>, out: bool| {
+        let mut out_ctl = vec![false; cfg.rate_ext()];
+        out_ctl[0] = out;
+        out_ctl[1] = out;
         Poseidon2PermCall {
             config: cfg,
             new_start,
@@ -922,49 +973,44 @@ fn cat_e4(name: &str) -> Option<Result<Built<E4>, String>> {
             mmcs_bit: bit,
             mmcs_bit2: None,
             inputs,
-            out_ctl: vec![out, out],
+            out_ctl,
             return_all_outputs: false,
             mmcs_index_sum: None,
         }
+    };
+    let perm_cfg = |st: &[E4]| -> Vec<E4> {
+        if w32 { perm_e4_w32(st) } else { perm_e4(core::array::from_fn(|i| st[i])).to_vec() }
     };
     let r = match name {
         "p2d4_min" => {
             // MINIMAL reproduction (D = 4): one private limb feeds one row, nothing exposed
             let x = a.private(limb(0));
-            tr!(a.b.add_poseidon2_perm(&call(true, false, None, vec![Some(x), None, None, None], false)));
+            let mut ins = vec![None; we];
+            ins[0] = Some(x);
+            padd!(call(true, false, None, ins, false));
             a.finish(Tri::Unknown, Tri::Sat, false)
         }
         "p2d4_priv" | "p2d4_pub" | "p2d4_priv_expected" => {
-            let st: [E4; 4] = core::array::from_fn(|i| limb(i as u64));
+            let st: Vec<E4> = (0..we).map(|i| limb(i as u64)).collect();
             let ins: Vec<Option<ExprId>> = st
                 .iter()
                 .map(|v| Some(if name == "p2d4_pub" { a.public(*v) } else { a.private(*v) }))
                 .collect();
-            let o = perm_e4(st);
-            let (op, outs) = tr!(a.b.add_poseidon2_perm(&call(true, false, None, ins, true)));
+            let o = perm_cfg(&st);
+            let (_, outs) = padd!(call(true, false, None, ins, true));
             for i in 0..2 {
                 let e = if name == "p2d4_priv_expected" { a.private(o[i]) } else { a.public(o[i]) };
                 a.b.connect(outs[i].unwrap(), e);
             }
-            let mut b = tr!(a.finish(Tri::Unsat, Tri::Unsat, false));
-            // private data handed to a non-Merkle row is rejected by the executor
-            let mut s = steps(Some(&b.pubs), Some(&b.privs), &[]);
-            s.push(Step::Data { op: op.0, sibling: vec![of_f(&limb(5)), of_f(&limb(6))] });
-            b.extra.push(Script {
-                name: "data_on_non_merkle".into(),
-                fault: "data_on_non_merkle",
-                expect: Expect::MustErr,
-                steps: s,
-            });
-            Ok(b)
+            a.finish(Tri::Unsat, Tri::Unsat, false)
         }
         "p2d4_chain3" => {
-            let st: [E4; 4] = core::array::from_fn(|i| limb(i as u64));
+            let st: Vec<E4> = (0..we).map(|i| limb(i as u64)).collect();
             let ins: Vec<Option<ExprId>> = st.iter().map(|v| Some(a.private(*v))).collect();
-            tr!(a.b.add_poseidon2_perm(&call(true, false, None, ins, false)));
-            tr!(a.b.add_poseidon2_perm(&call(false, false, None, vec![None; 4], false)));
-            let (_, outs) = tr!(a.b.add_poseidon2_perm(&call(false, false, None, vec![None; 4], true)));
-            let o = perm_e4(perm_e4(perm_e4(st)));
+            padd!(call(true, false, None, ins, false));
+            padd!(call(false, false, None, vec![None; we], false));
+            let (_, outs) = padd!(call(false, false, None, vec![None; we], true));
+            let o = perm_cfg(&perm_cfg(&perm_cfg(&st)));
             for i in 0..2 {
                 let e = a.public(o[i]);
                 a.b.connect(outs[i].unwrap(), e);
@@ -978,14 +1024,14 @@ fn cat_e4(name: &str) -> Option<Result<Built<E4>, String>> {
             let one = a.c(E4::ONE);
             let st0: [E4; 4] = core::array::from_fn(|i| limb(i as u64));
             let in0: Vec<Option<ExprId>> = st0.iter().map(|v| Some(a.c(*v))).collect();
-            tr!(a.b.add_poseidon2_perm(&call(true, true, Some(zero), in0, false)));
+            padd!(call(true, true, Some(zero), in0, false));
             let o0 = perm_e4(st0);
             let sib1 = [limb(4), limb(5)];
             let sib2 = [limb(6), limb(7)];
             let d1 = merkle_step([o0[0], o0[1]], sib1, true);
             let root = merkle_step(d1, sib2, false);
-            let (op1, _) = tr!(a.b.add_poseidon2_perm(&call(false, true, Some(one), vec![None; 4], false)));
-            let (op2, outs) = tr!(a.b.add_poseidon2_perm(&call(false, true, Some(zero), vec![None; 4], true)));
+            let (op1, _) = padd!(call(false, true, Some(one), vec![None; 4], false));
+            let (op2, outs) = padd!(call(false, true, Some(zero), vec![None; 4], true));
             for i in 0..2 {
                 let e = a.public(root[i]);
                 a.b.connect(outs[i].unwrap(), e);
@@ -1000,13 +1046,13 @@ fn cat_e4(name: &str) -> Option<Result<Built<E4>, String>> {
             let zero = a.c(E4::ZERO);
             let l0 = a.c(limb(0));
             let l1 = a.c(limb(1));
-            let (op, _outs) = tr!(a.b.add_poseidon2_perm(&call(
+            let (op, _outs) = padd!(call(
                 true,
                 true,
                 Some(zero),
                 vec![Some(l0), Some(l1), None, None],
                 true
-            )));
+            ));
             a.data.push((op.0, vec![of_f(&limb(2)), of_f(&limb(3))]));
             a.finish(Tri::Unknown, Tri::Unknown, false)
         }
@@ -1016,13 +1062,13 @@ fn cat_e4(name: &str) -> Option<Result<Built<E4>, String>> {
             let sib = [limb(2), limb(3)];
             let l: Vec<ExprId> = leaf.iter().map(|v| a.private(*v)).collect();
             let bit = a.private(E4::ONE);
-            let (op, outs) = tr!(a.b.add_poseidon2_perm(&call(
+            let (op, outs) = padd!(call(
                 true,
                 true,
                 Some(bit),
                 vec![Some(l[0]), Some(l[1]), None, None],
                 true
-            )));
+            ));
             let root = merkle_step(leaf, sib, true);
             for i in 0..2 {
                 let e = a.public(root[i]);
@@ -1077,13 +1123,13 @@ fn cat_e4(name: &str) -> Option<Result<Built<E4>, String>> {
             };
             let val = e4(cs);
             if name == "recompose_then_perm" {
-                let (_, outs) = tr!(a.b.add_poseidon2_perm(&call(
+                let (_, outs) = padd!(call(
                     true,
                     false,
                     None,
                     vec![Some(packed), None, None, None],
                     true
-                )));
+                ));
                 let o = perm_e4([val, E4::ZERO, E4::ZERO, E4::ZERO]);
                 for i in 0..2 {
                     let e = a.public(o[i]);
@@ -1099,6 +1145,19 @@ fn cat_e4(name: &str) -> Option<Result<Built<E4>, String>> {
     };
     Some(r.map(|mut b| {
         extra_unknown_op(&mut b);
+        // sibling payloads of the shapes a compression row takes (none, one digest, three)
+        for op in &non_merkle {
+            for n in [0usize, 2, 6] {
+                let mut s = steps(Some(&b.pubs), Some(&b.privs), &b.data);
+                s.push(Step::Data { op: *op, sibling: (0..n).map(|k| of_f(&limb(5 + k as u64))).collect() });
+                b.extra.push(Script {
+                    name: format!("data_on_non_merkle(op{op},len{n})"),
+                    fault: "data_on_non_merkle",
+                    expect: Expect::MustErr,
+                    steps: s,
+                });
+            }
+        }
         b
     }))
 }
